@@ -152,7 +152,7 @@ func (d *Dynamic) Draw(ctx vxfw.DrawContext) (vxfw.Surface, error) {
 		// Get the last child so we can set our accumulated height
 		if len(s.Children) > 0 {
 			last := s.Children[len(s.Children)-1]
-			ah = last.Origin.Row + int(last.Surface.Size.Height)
+			ah = last.Origin.Row + int(last.Surface.Size.Height) + d.Gap
 		}
 	}
 
@@ -287,7 +287,7 @@ func (d *Dynamic) Draw(ctx vxfw.DrawContext) (vxfw.Surface, error) {
 	// Reset origins and state based on actual draw
 	for i, ch := range s.Children {
 		if ch.Origin.Row <= 0 &&
-			ch.Origin.Row+int(ch.Surface.Size.Height) > 0 {
+			ch.Origin.Row+int(ch.Surface.Size.Height)+d.Gap > 0 {
 			d.scroll.top += uint(i)
 			d.scroll.offset = -ch.Origin.Row
 		}
@@ -326,7 +326,7 @@ func (d *Dynamic) insertChildren(ctx vxfw.DrawContext, p *vxfw.Surface, ah int) 
 			return err
 		}
 		// Subtract the height of this surface and add it to the parent
-		ah -= int(s.Size.Height)
+		ah -= int(s.Size.Height) + d.Gap
 		ss := vxfw.NewSubSurface(colOffset, ah, s)
 		p.Children = slices.Insert(p.Children, 0, ss)
 
@@ -348,7 +348,7 @@ func (d *Dynamic) insertChildren(ctx vxfw.DrawContext, p *vxfw.Surface, ah int) 
 		for i, ch := range p.Children {
 			ch.Origin.Row = int(row)
 			p.Children[i] = ch
-			row += ch.Surface.Size.Height
+			row += ch.Surface.Size.Height + uint16(d.Gap)
 		}
 		return nil
 	}
